@@ -11,6 +11,11 @@ def universe(thorough):
                 pat = tuple((k + 2) * 2 if b else None for k, b in enumerate(bits))
                 for lay, sp in (('left', None), ('right', None), ('stride', None), ('lpad', 'D'), ('rpad', 'D'), ('lpad', 4), ('rpad', 4), ('lpad', 3)):
                     out.append((lay, sp, t, pat))
+    for t in ('u8', 'u16', 'u32', 'i8', 'i16'):
+        H = C.hi(t)
+        for pat in ((H,), (H, None), (None, H), (H, H)):
+            for lay, sp in (('left', None), ('right', None), ('stride', None), ('lpad', 'D'), ('rpad', 4)):
+                out.append((lay, sp, t, pat))
     return out
 
 def pat_str(p): return ','.join('D' if x is None else str(x) for x in p) if p else '-'
